@@ -1,7 +1,50 @@
 package main
 
+import (
+	"fmt"
+	"go/types"
+	"strings"
+)
+
 // Lemmas (pure SMT obligations stated in the contract language) and capability ("forwards") obligations.
 
 func (e *Engine) LemmaObligations(id string) ([]*Obligation, []string) { return nil, nil }
 
-func (e *Engine) ForwardObligations(id string) []*Obligation { return nil }
+// ForwardObligations: `forwards T : I1, I2` — the wrapper type *T offers every optional interface listed
+// (so a wrapped writer keeps that capability), either directly or, for Flusher, through Unwrap() which
+// http.ResponseController follows. Decided by go/types method sets (back end: the Go type checker); that the
+// method body actually delegates is a separate `post` obligation on the method's contract.
+func (e *Engine) ForwardObligations(id string) []*Obligation {
+	var out []*Obligation
+	for _, fw := range e.cs.Forwards {
+		if !hasProp(fw.Props, id) {
+			continue
+		}
+		pkg := e.pkgByDir(fw.Pkg)
+		t := e.parseType(pkg, fw.Type)
+		ctx := &FnCtx{eng: e, declared: map[string]bool{}, heapSort: map[string]string{}, notes: map[string]bool{}, mode: "seq"}
+		for _, in := range fw.Ifaces {
+			name := fmt.Sprintf("%s.%s/forwards/%s", pkg.Name(), fw.Type, strings.ReplaceAll(in, ".", "_"))
+			goal := "false"
+			if t != nil {
+				it := e.parseType(pkg, in)
+				pt := types.NewPointer(t)
+				if it != nil {
+					if iface, ok := it.Underlying().(*types.Interface); ok && types.Implements(pt, iface) {
+						goal = "(= 1 1)"
+					}
+				}
+				if goal == "false" && in == "http.Flusher" {
+					// ResponseController also accepts an Unwrap() http.ResponseWriter method
+					ms := types.NewMethodSet(pt)
+					if sel := ms.Lookup(pkg, "Unwrap"); sel != nil {
+						goal = "(= 1 1)"
+					}
+				}
+			}
+			out = append(out, &Obligation{Name: name, Kind: "forwards", Func: pkg.Name() + "." + fw.Type, Ctx: ctx, Goal: goal,
+				Src: "wrapper " + fw.Type + " keeps the optional interface " + in + " of the writer it wraps", Props: fw.Props})
+		}
+	}
+	return out
+}
